@@ -69,6 +69,18 @@ class PrefixLoader(loaders.DefaultObjectLoader):
 PREFIX_LOADER_ID = f'{PrefixLoader.__module__}:{PrefixLoader.__name__}'
 
 
+class RegistryLoader(PrefixLoader):
+    """a custom ObjectLoader that cannot be rebuilt from its class name (its constructor needs an argument): legitimate as long
+    as it is passed explicitly in the save AND the load context"""
+
+    def __init__(self, registry):
+        super().__init__()
+        self.registry = registry
+
+
+REGISTRY_LOADER_ID = f'{RegistryLoader.__module__}:{RegistryLoader.__name__}'
+
+
 class Listener(plumpy.ProcessListener):
     """a listener without state of its own (the set of listeners is persisted with the process)"""
 
@@ -110,6 +122,10 @@ def _make_proc_body(i, awaits, oc, outs):
         call = (i, tuple(a), tuple(sorted((int(k[1:]), v) for k, v in kw.items())))
         self._trace.append(call)
         sorted(self.inputs.keys())      # every step consults its (possibly empty) parsed inputs, which must have been restored
+        nested = self.inputs.get('ns')
+        if nested is not None:          # ... and reads a nested input namespace attribute-style, as `self.inputs.ns.d0`
+            for key in sorted(nested.keys()):
+                getattr(self.inputs.ns, key)
         self.out(f't{i}', [list(a), sorted([k, v] for k, v in kw.items())])
         for port, value in outs:
             self.out(port, copy.deepcopy(value))
@@ -188,6 +204,7 @@ def build_chain(block, tabs):
     def ensure(self):
         if 'sc' not in self.ctx.__dict__:
             self.ctx.sc, self.ctx.pc, self.ctx.trace = {}, {}, []
+            self.ctx.log = self.ctx.trace       # ONE list under two keys: steps write through `log`, everything reads `trace`
 
     def mk_step(f):
         def step(self):
@@ -197,7 +214,7 @@ def build_chain(block, tabs):
             vals = tabs.get('S', {}).get(f, [])
             r = vals[i] if i < len(vals) else None
             ev = f's{f}:{og.show_ret(r)}'
-            self.ctx.trace.append(ev)
+            self.ctx.log.append(ev)
             self._trace.append(ev)
             self.out(f'c{f}', i + 1)
             return plumpy.ToContext() if r == 'T' else r
@@ -395,7 +412,8 @@ def is_live(view_tokens):
 
 def model_line(mode, cls, block, view_tokens):
     """mode: 'D' default loader, 'G' custom loader installed globally, 'C' custom loader in the save context"""
-    head = ['D', '-', '-'] if mode == 'D' else [mode, LOADER_PREFIX, PREFIX_LOADER_ID]
+    head = (['D', '-', '-'] if mode == 'D' else ['C', LOADER_PREFIX, REGISTRY_LOADER_ID] if mode == 'R'
+            else [mode, LOADER_PREFIX, PREFIX_LOADER_ID])      # 'R': as 'C', with a loader that only exists as an instance
     ident = loaders.DefaultObjectLoader().identify_object(cls)
     toks = head + [ident, 'W' if block is not None else 'P'] + view_tokens
     if block is not None:
